@@ -592,7 +592,8 @@ func c11Unique(all []string, d string) bool {
 
 func c11Run(c *core.Ctx, idx int) {
 	c11Once.Do(c11Enum)
-	seq, _ := c11Tier(c.Tier)
+	seq, conc := c11Tier(c.Tier)
+	idx = spread(idx, seq+conc) // (the concurrent trees would otherwise all land in the last child)
 	if idx < seq {
 		c11Sequential(c)
 	} else {
